@@ -89,6 +89,19 @@ theorem C03_source_as_modelled :
 theorem C03_current_source : SourceOk :=
   ⟨C03_layout_current_source.1, C03_descent_current_source, C03_assign_current_source.2⟩
 
+/-- the generated expressions on concrete widths (24-byte header, Int key, 24-byte value): offsets, widths, and the payload
+    `Tree_Alloc` + `Tree_Set` leave in a node; and a descent that takes the other turn misses a key that is there, so
+    `DescentOk` is not a formality -/
+example :
+    let y : Lay := ⟨3, 1, 3⟩
+    (y.keyHdrOff, y.keyOff, y.valHdrOff, y.valOff, y.entryLen, y.moveLen) = (0, 3, 4, 7, 10, 10) ∧
+    entryWords y (Key.i 14, ([14, 15, 16] : Val)) =
+      [.hdr true, .hdr true, .hdr true, .int 14, .hdr false, .hdr false, .hdr false, .int 14, .int 15, .int 16] ∧
+    find (orient ⟨true, .right, .left⟩ Key.cmp) (T.node .B (T.node .R .nil (.i 2) [20] .nil) (.i 1) ([10] : Val) .nil) (.i 2) = none ∧
+    find (orient CelloGen.Tree.getDescent Key.cmp) (T.node .B (T.node .R .nil (.i 2) [20] .nil) (.i 1) ([10] : Val) .nil) (.i 2)
+      = some [20] := by
+  decide
+
 /-- **C03 (T1), refinement.** For every comparison that is a lawful order and every history of
     new / set / rem / get / mem / len / resize / assign / copy / iter / riter / del over any number of trees
     (self-assignment `assign(t, t)` included: since the fix a3140e4 `Tree_Assign` returns at once when `self is obj`; the
